@@ -746,6 +746,12 @@ class BaseProperty(base.BaseObject):
         if self.unit is None and other.unit is not None:
             self.unit = other.unit
 
+        # A Property without a dtype has no values: it takes the values as they are in
+        # the source, so it needs the dtype they have there; guessing the dtype from the
+        # values turns e.g. the values of an odml style tuple Property into strings.
+        if self._dtype is None and other.dtype is not None:
+            self._dtype = other.dtype
+
         # merge_check has already established that dtypes and values are compatible;
         # the dtype guessing of a strict extend must not abort a half done merge.
         to_add = [v for v in other.values if v not in self._values]
